@@ -1564,8 +1564,13 @@ class PreviewTree:
         try:
             return self._transform._new_executability[trans_id]
         except KeyError:
+            # Ask the original tree about the entry itself, which may live at
+            # a different path there (or not exist there at all).
+            tree_path = self._transform.tree_path(trans_id)
+            if tree_path is None:
+                return False
             try:
-                return self._transform._tree.is_executable(path)
+                return self._transform._tree.is_executable(tree_path)
             except FileNotFoundError:
                 return False
             except NoSuchFile:
